@@ -1,5 +1,7 @@
 """C01 stream conservation: ledger monitor over scripted histories."""
 from . import _expect_common as X
+from . import _real_ledger as RL
+from ..core.runner import split_range
 from ..monitors.expect_oracles import Ledger
 
 ID = 'C01'
@@ -9,15 +11,27 @@ RULE = ('cases = random scripted histories (stream over {a,b,CR,LF,e-acute} x re
         'assignment, TIMEOUT events, windows) + exact-string straddle histories + all streams<=L over '
         '{a,b,LF} x all splittings; the ledger (handed back + pending == received) is evaluated after every '
         'engine-level call. non-trivial = history with >=2 ledger-relevant calls of which one consumed >=2 '
-        'data reads or followed a TIMEOUT/buffer assignment; distinct by whole case')
+        'data reads or followed a TIMEOUT/buffer assignment; distinct by whole case. Companion on the real transports '
+        '(pty, piped subprocess, descriptor, socket): numbered lines written in 1-3 pieces by a peer that ends before / '
+        'while / after the consumer reads, consumed by a random mix of expect_exact / expect / readline / read(n) / '
+        'expect(EOF) with maxread 1..2000: everything handed back, concatenated, must be the stream')
 ASSUMPTIONS = ['the scripted transport replaces only read_nonblocking; SpawnBase/Expecter/searchers run unmodified',
                'virtual clock replaces pexpect.expect.time']
-REQUIRED = ['ledger_calls', 'ledger_match', 'ledger_timeout', 'ledger_eof']
-plan = X.plan
+REQUIRED = ['ledger_calls', 'ledger_match', 'ledger_timeout', 'ledger_eof', 'real_ledger_evaluations']
+
+
+def plan(tier, seed):
+    specs = X.plan(tier, seed)
+    n, k = (160, 8) if tier == 'quick' else (4000, 16)
+    for i, (a, b) in enumerate(split_range(n, k)):
+        specs.append({'gen': 'real-ledger', 'n': b - a, 'shard': 400 + i, 'seed': seed, 'tier': tier})
+    return specs
 
 
 def run_shard(spec, acc):
     spec = dict(spec, prop=ID)
+    if spec.get('gen') == 'real-ledger' or (isinstance(spec.get('replay'), dict) and spec['replay'].get('real')):
+        return RL.run(spec, acc)
     def make(run, acc):
         led = Ledger(run, acc)
         run.ledger = led
